@@ -385,6 +385,27 @@ func c17Oracle(c *c17Case, fs []c17Feat) *Violation {
 			}
 		}
 	}
+	// the outer way of a relation that has no tags of its own besides its type stands for the relation (old style
+	// multipolygon); when that relation yields no polygon the way yields nothing either
+	oldStyleOuter := map[int]bool{}
+	for _, r := range c.o.Relations {
+		if t := r.Tags.Find("type"); t == "multipolygon" || t == "boundary" {
+			own := false
+			for _, t := range r.Tags {
+				if t.Key != "type" && !c17Uninteresting[t.Key] {
+					own = true
+				}
+			}
+			if own {
+				continue
+			}
+			for _, m := range r.Members {
+				if m.Type == osm.TypeWay && m.Role == "outer" {
+					oldStyleOuter[int(m.Ref)] = true
+				}
+			}
+		}
+	}
 	// an outer way of a multipolygon / boundary relation whose tags say nothing beyond the relation's own tags is
 	// represented by the relation and not converted on its own (osmtogeojson's rule, convert.go "skippable"),
 	// whether or not the relation ends up with a valid polygon
@@ -402,7 +423,7 @@ func c17Oracle(c *c17Case, fs []c17Feat) *Violation {
 					}
 					beyond := false
 					for _, t := range w.Tags {
-						if !c17Uninteresting[t.Key] && rt[t.Key] != t.Value && rt[t.Key] != "true" {
+						if rv, has := rt[t.Key]; !c17Uninteresting[t.Key] && !(has && rv == t.Value) {
 							beyond = true
 						}
 					}
@@ -505,7 +526,7 @@ func c17Oracle(c *c17Case, fs []c17Feat) *Violation {
 					resolvable++
 				}
 			}
-			if resolvable >= 2 && c17Interesting(w.Tags) && outerOf[int(w.ID)] == 0 && !covered[int(w.ID)] {
+			if resolvable >= 2 && c17Interesting(w.Tags) && !oldStyleOuter[int(w.ID)] && !covered[int(w.ID)] {
 				return &Violation{Signature: "way-feature-missing", Text: fmt.Sprintf("way %d has tags %v and %d resolvable nodes but no feature", w.ID, w.Tags, resolvable)}
 			}
 			continue
@@ -752,7 +773,7 @@ func c17GenData(r *Rng) (nodes, ways, rels []string) {
 		typ := []string{"type=route", "type=multipolygon", "type=boundary", "type=site", "name=rel"}[r.Intn(5)]
 		tags := typ
 		if r.Chance(40) {
-			tags += "," + []string{"name=r", "landuse=forest", "source=z"}[r.Intn(3)]
+			tags += "," + []string{"name=r", "landuse=forest", "source=z", "building=true", "natural=true"}[r.Intn(5)]
 		}
 		k := r.Intn(5)
 		var ms []string
